@@ -4,6 +4,7 @@
 //! what the API returned, reduced to plain data.
 
 use std::cell::RefCell;
+use std::rc::Rc;
 use std::fmt::Debug;
 use std::sync::atomic::{AtomicU64, Ordering};
 
@@ -32,6 +33,9 @@ pub enum RStrategy {
     RetryThenDiscard,
     /// RetryUntilDelivered + handler: Retry while retries < 1, then DiscardDataAndFail
     RetryThenFail,
+    /// RetryUntilDelivered + handler that lets the blocking subscriber receive (and drop) one sample
+    /// and answers Retry; DiscardData when that subscriber cannot receive anything
+    RetryConsume,
 }
 
 #[derive(Clone, Debug)]
@@ -54,13 +58,30 @@ pub struct Recv {
     pub user_header: u64,
 }
 
-thread_local! {
-    /// (sender port id, receiver port id, retries) of every backpressure handler invocation
-    static HANDLER_LOG: RefCell<Vec<(u128, u128, u64)>> = const { RefCell::new(Vec::new()) };
+/// one invocation of a backpressure handler
+#[derive(Clone, Debug)]
+pub struct HandlerCall {
+    pub sender: u128,
+    pub receiver: u128,
+    pub retries: u64,
+    /// RetryConsume: what the receive of the blocking subscriber inside the handler returned
+    pub consumed: Option<Result<Option<Recv>, ReceiveError>>,
 }
 
-pub fn take_handler_log() -> Vec<(u128, u128, u64)> {
+type ConsumeFn = Rc<dyn Fn() -> Result<Option<Recv>, ReceiveError>>;
+
+thread_local! {
+    static HANDLER_LOG: RefCell<Vec<HandlerCall>> = const { RefCell::new(Vec::new()) };
+    /// subscriber id -> "receive one sample, read it, drop it" (used by the RetryConsume handler)
+    static SUB_REGISTRY: RefCell<Vec<(u128, ConsumeFn)>> = const { RefCell::new(Vec::new()) };
+}
+
+pub fn take_handler_log() -> Vec<HandlerCall> {
     HANDLER_LOG.with(|l| std::mem::take(&mut *l.borrow_mut()))
+}
+
+fn unregister(id: u128) {
+    SUB_REGISTRY.with(|r| r.borrow_mut().retain(|e| e.0 != id));
 }
 
 static COUNTER: AtomicU64 = AtomicU64::new(0);
@@ -271,7 +292,7 @@ struct PubR<S: Service, K: Kind> {
 
 struct SubR<S: Service, K: Kind> {
     held: Vec<Sample<S, K::P, u64>>,
-    port: Subscriber<S, K::P, u64>,
+    port: Rc<Subscriber<S, K::P, u64>>,
 }
 
 /// field order = drop order: samples and loans first, then ports, service, node
@@ -331,7 +352,9 @@ impl<S: Variant, K: Kind> World<S, K> {
         let b = self.service.as_ref().unwrap().publisher_builder().max_loaned_samples(self.settings.loans);
         let b = K::tune_publisher(b);
         let log = |info: &BackpressureInfo| {
-            HANDLER_LOG.with(|l| l.borrow_mut().push((info.sender_port_id, info.receiver_port_id, info.retries)));
+            HANDLER_LOG.with(|l| {
+                l.borrow_mut().push(HandlerCall { sender: info.sender_port_id, receiver: info.receiver_port_id, retries: info.retries, consumed: None })
+            });
         };
         match self.settings.strategy {
             RStrategy::Discard => b.backpressure_strategy(BackpressureStrategy::DiscardData).create(),
@@ -364,6 +387,27 @@ impl<S: Variant, K: Kind> World<S, K> {
                     }
                 })
                 .create(),
+            RStrategy::RetryConsume => b
+                .backpressure_strategy(BackpressureStrategy::RetryUntilDelivered)
+                .set_backpressure_handler(move |info: &BackpressureInfo| {
+                    let f: Option<ConsumeFn> =
+                        SUB_REGISTRY.with(|r| r.borrow().iter().find(|e| e.0 == info.receiver_port_id).map(|e| e.1.clone()));
+                    let res = match f {
+                        Some(f) => f(),
+                        None => Ok(None),
+                    };
+                    let action = if matches!(res, Ok(Some(_))) { BackpressureAction::Retry } else { BackpressureAction::DiscardData };
+                    HANDLER_LOG.with(|l| {
+                        l.borrow_mut().push(HandlerCall {
+                            sender: info.sender_port_id,
+                            receiver: info.receiver_port_id,
+                            retries: info.retries,
+                            consumed: Some(res),
+                        })
+                    });
+                    action
+                })
+                .create(),
         }
     }
 
@@ -376,6 +420,12 @@ impl<S: Variant, K: Kind> World<S, K> {
             b = b.history_request(v);
         }
         b.create()
+    }
+
+    fn unregister_all(&self) {
+        for s in self.subs.iter().flatten() {
+            unregister(s.port.id().value());
+        }
     }
 
     fn p(&self, slot: usize) -> &PubR<S, K> {
@@ -400,6 +450,12 @@ fn read_loan<S: Service, K: Kind>(s: &SampleMut<S, K::P, u64>) -> (Vec<u64>, u64
     (K::words_mut(s), unsafe { std::ptr::read_volatile(s.user_header() as *const u64) })
 }
 
+impl<S: Variant, K: Kind> Drop for World<S, K> {
+    fn drop(&mut self) {
+        self.unregister_all();
+    }
+}
+
 impl<S: Variant, K: Kind> Real for World<S, K> {
     fn create_pub(&mut self, slot: usize) -> Result<u128, PublisherCreateError> {
         assert!(self.pubs[slot].is_none(), "harness bug: publisher slot in use");
@@ -421,8 +477,17 @@ impl<S: Variant, K: Kind> Real for World<S, K> {
 
     fn create_sub(&mut self, slot: usize, buffer: Option<usize>, hreq: Option<usize>) -> Result<(u128, usize), SubscriberCreateError> {
         assert!(self.subs[slot].is_none(), "harness bug: subscriber slot in use");
-        let port = self.build_sub(buffer, hreq)?;
+        let port = Rc::new(self.build_sub(buffer, hreq)?);
         let r = (port.id().value(), port.buffer_size());
+        let p2 = port.clone();
+        let consume: ConsumeFn = Rc::new(move || match K::receive(&p2)? {
+            None => Ok(None),
+            Some(smp) => {
+                let (words, user_header) = read_sample::<S, K>(&smp);
+                Ok(Some(Recv { origin: smp.origin().value(), header_publisher: smp.header().publisher_id().value(), words, user_header }))
+            }
+        });
+        SUB_REGISTRY.with(|reg| reg.borrow_mut().push((r.0, consume)));
         self.subs[slot] = Some(SubR { held: Vec::new(), port });
         Ok(r)
     }
@@ -433,6 +498,8 @@ impl<S: Variant, K: Kind> Real for World<S, K> {
 
     fn drop_sub(&mut self, slot: usize) {
         let SubR { held, port } = self.subs[slot].take().expect("harness bug: subscriber slot empty");
+        unregister(port.id().value());
+        assert!(Rc::strong_count(&port) == 1, "harness bug: subscriber still referenced");
         drop(port);
         self.orphans.extend(held);
     }
@@ -541,6 +608,7 @@ impl<S: Variant, K: Kind> Real for World<S, K> {
     fn finish(mut self: Box<Self>) -> Result<(), String> {
         self.orphans.clear();
         self.zombies.clear();
+        self.unregister_all();
         self.subs.clear();
         self.pubs.clear();
         self.service = None;
